@@ -119,9 +119,10 @@ Proof. intros mtype tag body f H Ht. eexists. exact (parse_frame_frame _ _ _ _ H
 Print Assumptions C13_frames_are_well_formed.
 
 Example C13_stream_example :
-  stream_ok [[0;0;0;4;65;0;0;1]; [0;0;0;4;65;0;0;2]] [0;0;0;4;65;0;0;1;0;0;0;4;65;0;0;2] true = true
-  /\ stream_ok [[0;0;0;4;65;0;0;1]; [0;0;0;4;65;0;0;2]] [0;0;0;4;65;0;0;1;0;0;0] false = true
-  /\ stream_ok [[0;0;0;4;65;0;0;1]; [0;0;0;4;65;0;0;2]] [0;0;0;4;0;0;0;4;65;0;0;2;65;0;0;1] true = false.
+  stream_ok [[0;0;0;4;65;0;0;1]; [0;0;0;4;65;0;0;2]] [0;0;0;4;65;0;0;1;0;0;0;4;65;0;0;2] 2 = true
+  /\ stream_ok [[0;0;0;4;65;0;0;1]; [0;0;0;4;65;0;0;2]] [0;0;0;4;65;0;0;1;0;0;0] 1 = true
+  /\ stream_ok [[0;0;0;4;65;0;0;1]; [0;0;0;4;65;0;0;2]] [0;0;0;4;65;0;0;1;0;0;0] 2 = false
+  /\ stream_ok [[0;0;0;4;65;0;0;1]; [0;0;0;4;65;0;0;2]] [0;0;0;4;0;0;0;4;65;0;0;2;65;0;0;1] 2 = false.
 Proof. vm_compute. repeat split. Qed.
 
 (* Non-vacuity: a non-ASCII context entry, a deadline, tag 2^24-2; the frame exists and decodes. *)
